@@ -94,14 +94,26 @@ struct Net {
     new_dials: Vec<(usize, NamespaceId, PublicKey, SyncReason, oneshot::Sender<DialRes>)>,
 }
 
-struct CNode {
-    id: PublicKey,
-    tx: mpsc::Sender<ToLiveActor>,
-    _sync: SyncHandle,
+pub struct CNode {
+    pub id: PublicKey,
+    pub tx: mpsc::Sender<ToLiveActor>,
+    pub sync: SyncHandle,
     _ep: Endpoint,
 }
 
 async fn mk_node(i: usize, key: [u8; 32], net: Arc<Mutex<Net>>, ns: &iroh_docs::NamespaceSecret) -> Result<CNode, String> {
+    let n2 = net.clone();
+    let dial: VerifDialFn = Arc::new(move |ns, peer, reason| {
+        let (s, r) = oneshot::channel();
+        n2.lock().unwrap().new_dials.push((i, ns, peer, reason, s));
+        Box::pin(async move { r.await.unwrap_or_else(|_| Err(ConnectError::Connect { error: anyhow::anyhow!("dial dropped") })) })
+    });
+    mk_node_with(key, dial, ns, &[]).await
+}
+
+/// Build one node: real store actor, real live actor with the given dial seam; Endpoint, Gossip,
+/// blob store and downloader are real objects that carry no traffic.
+pub async fn mk_node_with(key: [u8; 32], dial: VerifDialFn, ns: &iroh_docs::NamespaceSecret, entries: &[iroh_docs::SignedEntry]) -> Result<CNode, String> {
     let ep = Endpoint::builder(presets::Minimal)
         .secret_key(SecretKey::from_bytes(&key))
         .bind()
@@ -112,16 +124,20 @@ async fn mk_node(i: usize, key: [u8; 32], net: Arc<Mutex<Net>>, ns: &iroh_docs::
     let dl = blobs.downloader(&ep);
     let mut store = Store::memory();
     store.import_namespace(Capability::Write(ns.clone())).map_err(|e| format!("{e:#}"))?;
+    if !entries.is_empty() {
+        iroh_docs::verif::set_wall_clock_micros(Some(1_000_000));
+        let mut r = store.open_replica(&ns.id()).map_err(|e| format!("{e}"))?;
+        for e in entries {
+            let _ = r.insert_remote_entry(e.clone(), [9u8; 32], iroh_docs::ContentStatus::Missing).await;
+        }
+        drop(r);
+        store.close_replica(ns.id());
+        iroh_docs::verif::set_wall_clock_micros(None);
+    }
     let (sync, fut) = SyncHandle::verif_new_local(store, None);
     tokio::task::spawn_local(fut);
     let (tx, rx) = mpsc::channel(64);
     let mut actor = LiveActor::new(sync.clone(), ep.clone(), gossip, (*blobs).clone(), dl, rx, tx.clone(), sync.metrics().clone()).map_err(|e| format!("live actor: {e:#}"))?;
-    let n2 = net.clone();
-    let dial: VerifDialFn = Arc::new(move |ns, peer, reason| {
-        let (s, r) = oneshot::channel();
-        n2.lock().unwrap().new_dials.push((i, ns, peer, reason, s));
-        Box::pin(async move { r.await.unwrap_or_else(|_| Err(ConnectError::Connect { error: anyhow::anyhow!("dial dropped") })) })
-    });
     actor.verif_set_dial(dial);
     tokio::task::spawn_local(async move {
         let _ = actor.run().await;
@@ -129,10 +145,10 @@ async fn mk_node(i: usize, key: [u8; 32], net: Arc<Mutex<Net>>, ns: &iroh_docs::
     let (reply, rrx) = oneshot::channel();
     tx.send(ToLiveActor::StartSync { namespace: ns.id(), peers: vec![], reply }).await.map_err(|_| "live actor gone".to_string())?;
     rrx.await.map_err(|_| "start sync dropped".to_string())?.map_err(|e| format!("start sync: {e:#}"))?;
-    Ok(CNode { id: ep.id(), tx, _sync: sync, _ep: ep })
+    Ok(CNode { id: ep.id(), tx, sync, _ep: ep })
 }
 
-async fn snapshot(n: &CNode, ns: NamespaceId, peer: PublicKey) -> Result<Option<VerifPeerState>, String> {
+pub async fn snapshot(n: &CNode, ns: NamespaceId, peer: PublicKey) -> Result<Option<VerifPeerState>, String> {
     let (reply, rx) = oneshot::channel();
     n.tx.send(ToLiveActor::VerifSnapshot { namespace: ns, peer, reply }).await.map_err(|_| "the live actor has stopped".to_string())?;
     rx.await.map_err(|_| "the live actor has stopped".to_string())
@@ -148,7 +164,7 @@ struct MSyncReport {
     heads: Vec<u8>,
 }
 
-fn sync_report(ns: NamespaceId, news: bool) -> SyncReport {
+pub fn sync_report(ns: NamespaceId, news: bool) -> SyncReport {
     let w = world();
     let mut h = AuthorHeads::default();
     if news {
@@ -220,7 +236,7 @@ impl Scenario for Coord {
     }
 }
 
-fn running(s: &Option<VerifPeerState>) -> Option<Origin> {
+pub fn running(s: &Option<VerifPeerState>) -> Option<Origin> {
     s.as_ref().and_then(|s| s.running.clone())
 }
 
